@@ -692,6 +692,32 @@ func TestDrv_C09(t *testing.T) {
 			}
 		}
 	}
+	// a first record far larger than any buffer (a 20 MiB response body captured with -max-body=-1), then small ones, cut
+	// after the first record, inside the second and not at all: through auto-detection, as the commands read it
+	{
+		rs := []vegeta.Result{genResult(r, 0, 100), genResult(r, 1, 100), genResult(r, 2, 100)}
+		rs[0].Body = make([]byte, 20<<20)
+		r.Read(rs[0].Body)
+		for _, c := range codecs {
+			data, frames := encodeAll(c, rs)
+			tr := trs[cases%P]
+			cases++
+			tr.Emit("Reset", KV{"kind": "c09", "codec": c.name, "frames": frames, "total": len(data)})
+			e0, e1 := frames[0]["end"].(int), frames[1]["end"].(int)
+			for _, cut := range []int{e0, (e0 + e1) / 2, e1, len(data)} {
+				if c.name == "csv" && cut == (e0+e1)/2 {
+					continue // CSV: record boundaries only
+				}
+				if dec := vegeta.DecoderFor(bytes.NewReader(data[:cut])); dec == nil {
+					tr.Emit("Cut", KV{"cut": cut, "reader": "auto: no decoder", "out": []int{}, "tail": "eof"})
+				} else {
+					ids, tail := decodeIDs(dec, rs, len(rs)+3)
+					tr.Emit("Cut", KV{"cut": cut, "reader": "auto", "out": ids, "tail": tail})
+				}
+				cuts++
+			}
+		}
+	}
 	// the commands read several files through one round-robin decoder: a cut stream next to whole ones
 	cases += cutNextToSparse(trs[0], r, 60)
 	events := 0
